@@ -1322,6 +1322,63 @@ mod json_oracle {
         Ok(())
     }
 }
+// C14 (JSON clause, bounded): corrupted JSON texts never make the deserialiser panic; what it accepts is a registry
+#[cfg(feature = "json")]
+fn c14_json(st: &mut Stats) -> Res {
+    std::panic::set_hook(Box::new(|_| {}));
+    let mut regs = small_registries();
+    regs.retain(|r| r.encode().len() <= 200);
+    for r in regs.iter() {
+        let text = serde_json::to_string(r).map_err(|e| e.to_string())?;
+        let b = text.as_bytes();
+        let mut variants: Vec<Vec<u8>> = Vec::new();
+        for cut in 0..b.len() {
+            variants.push(b[..cut].to_vec());
+        }
+        for pos in 0..b.len() {
+            for rep in [b'0', b'"', b'{', b'[', b',', b'-', b'e', 0xFFu8, b'n'] {
+                let mut v = b.to_vec();
+                v[pos] = rep;
+                variants.push(v);
+            }
+            let mut v = b.to_vec();
+            v.remove(pos);
+            variants.push(v);
+            let mut v = b.to_vec();
+            v.insert(pos, b'9');
+            variants.push(v);
+        }
+        // huge numbers / deep nesting / duplicate and unknown keys
+        variants.push(text.replacen("\"id\":", "\"id\":99999999999999999999", 1).into_bytes());
+        variants.push(text.replacen("\"id\":", "\"id\":-1,\"id\":", 1).into_bytes());
+        variants.push(text.replacen("{\"types\":", "{\"extra\":[[[[[[[[[[[[[[[[]]]]]]]]]]]]]]]],\"types\":", 1).into_bytes());
+        variants.push(format!("{}{}", "[".repeat(5000), "]".repeat(5000)).into_bytes());
+        for v in variants {
+            st.cases += 1;
+            let res = std::panic::catch_unwind(|| serde_json::from_slice::<PortableRegistry>(&v));
+            match res {
+                Err(_) => return Err(format!("deserialising {:?} panicked", String::from_utf8_lossy(&v))),
+                Ok(Ok(w)) => {
+                    st.nontrivial += 1;
+                    // an accepted text is a registry: it serialises, and that text reads back to the same value
+                    let t2 = serde_json::to_string(&w).map_err(|e| e.to_string())?;
+                    let w2: PortableRegistry = serde_json::from_str(&t2).map_err(|e| format!("re-reading {} failed: {}", t2, e))?;
+                    ensure!(w2 == w, "JSON {} was accepted as {:?} but that value does not survive a JSON round trip", String::from_utf8_lossy(&v), w);
+                    let _ = w.resolve(u32::MAX);
+                    let _ = w.resolve(w.types.len() as u32);
+                }
+                Ok(Err(_)) => {}
+            }
+        }
+    }
+    let _ = std::panic::take_hook();
+    Ok(())
+}
+#[cfg(not(feature = "json"))]
+fn c14_json(_st: &mut Stats) -> Res {
+    Ok(())
+}
+
 #[cfg(feature = "json")]
 fn c08(st: &mut Stats, _max: u32) -> Res {
     json_oracle::c08(st)
@@ -1339,7 +1396,7 @@ fn main() {
     let r = match prop {
         "C10" => c10(&mut st, max),
         "C12" => c12(&mut st, max),
-        "C14" => c14(&mut st, max).and_then(|_| c14_decode(&mut st)),
+        "C14" => c14(&mut st, max).and_then(|_| c14_decode(&mut st)).and_then(|_| c14_json(&mut st)),
         "C07" => c07(&mut st, max),
         "C01" => registry_histories(&mut st, max).and_then(|_| c10(&mut st, max.min(2))).and_then(|_| c12(&mut st, 3)),
         "C02" => registry_histories(&mut st, max),
